@@ -10,16 +10,34 @@ import (
 	"fmt"
 	"strings"
 	"sync"
+	"sync/atomic"
 	"time"
 
 	tally "github.com/uber-go/tally/v4"
 )
 
-type c09PanicAlloc struct{ *RecCached }
+type c09PanicAlloc struct {
+	*RecCached
+	mu   sync.Mutex
+	seen map[string]bool
+}
 
+// boom: names containing "boom" are always refused, names containing "once" the first time only
 func (p *c09PanicAlloc) boom(name string) {
 	if strings.Contains(name, "boom") {
 		panic("allocation refused: " + name)
+	}
+	if strings.Contains(name, "once") {
+		p.mu.Lock()
+		first := !p.seen[name]
+		if p.seen == nil {
+			p.seen = map[string]bool{}
+		}
+		p.seen[name] = true
+		p.mu.Unlock()
+		if first {
+			panic("allocation refused for now: " + name)
+		}
 	}
 }
 func (p *c09PanicAlloc) AllocateCounter(name string, tags map[string]string) tally.CachedCount {
@@ -58,7 +76,7 @@ func c09AfterPanic(kind int) string {
 	if kind == 4 {
 		opts.Reporter = &RecReporter{L: log, Caps: caps{true, true}}
 	} else {
-		opts.CachedReporter = &c09PanicAlloc{&RecCached{L: log, Caps: caps{true, true}}}
+		opts.CachedReporter = &c09PanicAlloc{RecCached: &RecCached{L: log, Caps: caps{true, true}}}
 	}
 	root, closer := tally.VerifNewRootScope(opts, 0, 2)
 	sc := root.SubScope("s")
@@ -93,9 +111,15 @@ func c09AfterPanic(kind int) string {
 	stage := "another first use of that kind on the same scope"
 	var mu sync.Mutex
 	set := func(s string) { mu.Lock(); stage = s; mu.Unlock() }
+	retryPanicked := true
 	go func() {
 		defer wg.Done()
 		use("after")
+		if kind < 4 {
+			set("a first use whose allocation is refused once, then the same name again")
+			use("once")
+			retryPanicked = use("once")
+		}
 		set("a second panicking first use")
 		use("boom2")
 		set("a first use of that kind by two goroutines")
@@ -115,6 +139,36 @@ func c09AfterPanic(kind int) string {
 		defer mu.Unlock()
 		return fmt.Sprintf("first use of a %s panicked inside the library's first-use path (panic seen by the caller: %v) and the caller recovered; afterwards %s never completes: %s", what, first, stage, c14TrimDump(dl))
 	}
+	if kind < 4 && !retryPanicked {
+		// the second request for "once" returned a metric without a panic: what was recorded through it
+		// must have reached the reporter (the root has been closed: everything is delivered)
+		n := 0
+		handles := map[int64]bool{}
+		buckets := map[int64]bool{}
+		for _, e := range log.Snapshot() {
+			switch e.K {
+			case 11, 12, 13, 14:
+				if e.S[0] == "s.once" {
+					handles[e.I[0]] = true
+				}
+			case 24:
+				if handles[e.I[0]] {
+					buckets[e.I[3]] = true
+				}
+			case 21, 22, 23:
+				if handles[e.I[0]] {
+					n++
+				}
+			case 26:
+				if buckets[e.I[0]] {
+					n++
+				}
+			}
+		}
+		if n == 0 {
+			return fmt.Sprintf("the reporter refused (panicked in) the allocation of %s \"once\" on its first use and the caller recovered; the same name was then requested again, a metric was returned without a panic and recorded on, the root was closed: nothing recorded through it reached the reporter (%d allocations for that name)", what, len(handles))
+		}
+	}
 	return ""
 }
 
@@ -123,4 +177,62 @@ func c14TrimDump(s string) string {
 		return s[:1500] + " ..."
 	}
 	return s
+}
+
+// c09ClosePurge: goroutines close child scopes at the moment the root's Close purges them ("... any
+// number of goroutines ... without panics"): released by the reporter's final Flush.  No panic in any
+// Close, every Close returns.
+func c09ClosePurge(rounds, nchild int) string {
+	for r := 0; r < rounds; r++ {
+		log := &Log{}
+		var flushed int32
+		rep := &RecReporter{L: log, Caps: caps{true, true}}
+		start := make(chan struct{})
+		rep.OnCall = func(k int) {
+			if k == 6 && atomic.CompareAndSwapInt32(&flushed, 0, 1) {
+				close(start) // the final report is done: the purge is next
+			}
+		}
+		root, closer := tally.VerifNewRootScope(tally.ScopeOptions{OmitCardinalityMetrics: true, Reporter: rep}, 0, 4)
+		kids := make([]tally.Scope, nchild)
+		for i := range kids {
+			kids[i] = root.Tagged(map[string]string{"k": fmt.Sprint(i)})
+			kids[i].Counter("c").Inc(1)
+		}
+		var wg sync.WaitGroup
+		var panicked atomic.Value
+		for g := 0; g < 4; g++ {
+			g := g
+			wg.Add(1)
+			go func() {
+				defer wg.Done()
+				defer func() {
+					if p := recover(); p != nil {
+						panicked.Store(fmt.Sprintf("Close of a child scope panicked: %v", p))
+					}
+				}()
+				<-start
+				for i := g; i < nchild; i += 4 {
+					kids[i].(interface{ Close() error }).Close()
+				}
+			}()
+		}
+		wg.Add(1)
+		go func() {
+			defer wg.Done()
+			defer func() {
+				if p := recover(); p != nil {
+					panicked.Store(fmt.Sprintf("the root's Close panicked: %v", p))
+				}
+			}()
+			closer.Close()
+		}()
+		if dl := waitOrDeadlock(&wg, "uber-go/tally/v4."); dl != "" {
+			return fmt.Sprintf("round %d: %d child scopes closed by 4 goroutines while the root's Close drops them: %s", r, nchild, c14TrimDump(dl))
+		}
+		if p := panicked.Load(); p != nil {
+			return fmt.Sprintf("round %d: %d child scopes were closed by 4 goroutines at the moment the root's Close was dropping them: %v", r, nchild, p)
+		}
+	}
+	return ""
 }
